@@ -246,12 +246,16 @@ def proof_coverage(prop, res, extra_cov):
     """Common proof bookkeeping: build, audit, forbidden-token grep. Returns (coverage dict, ok)."""
     cov = {"trusted_base": TRUSTED_BASE,
            "checker_cmd": f"cd lean && lake build HkModel hkdriver && lake env lean .build/Audit_{prop}.lean (#print axioms of every registered theorem)"}
-    ok, out = build_lean()
+    mods = registry().get(prop, {}).get("modules", [])
+    # only this property's theorem modules (and the driver): a proof obligation of another property that breaks is
+    # that property's violation, not this one's
+    ok, out = build_lean(tuple(mods) + ("hkdriver",)) if mods else build_lean()
+    cov["checker_cmd"] = f"cd lean && lake build {' '.join(mods)} hkdriver && lake env lean .build/Audit_{prop}.lean (#print axioms of every registered theorem)"
     if not ok:
         cov["obligations"], cov["discharged"] = max(1, len(registry().get(prop, {}).get("theorems", []))), 0
         err = "\n".join(l for l in out.split("\n") if "error" in l.lower())[:1500]
-        res.violation("lean-build", "Lean project no longer builds (a proof obligation or a regenerated table broke): " + err,
-                      {"kind": "lean-build", "theorem_or_tie": "lake build HkModel hkdriver", "log": out[-4000:]}, found=False)
+        res.violation("lean-build", "the Lean modules of this property no longer build (a proof obligation or a regenerated table broke): " + err,
+                      {"kind": "lean-build", "theorem_or_tie": "lake build " + " ".join(mods) + " hkdriver", "log": out[-4000:]}, found=False)
         cov.update(extra_cov)
         # the models and the driver may still build: then the correspondence runs as the search for a failing input
         dok, _ = build_driver_only()
